@@ -132,6 +132,10 @@ impl TrickyStr {
 pub struct PanicDefault(pub u8);
 impl Default for PanicDefault { fn default() -> Self { panic!("Default of a disabled variant's payload was evaluated") } }
 
+/// no Default
+#[derive(Debug, Clone, PartialEq)]
+pub struct NoDef(pub u8);
+
 /// Debug, no Display
 #[derive(Debug, Clone, PartialEq)]
 pub struct DbgOnly(pub u8);
